@@ -16,6 +16,7 @@ from pycardano.address import Address
 from pycardano.backend.base import ChainContext, GenesisParameters, ProtocolParameters
 from pycardano.backend.kupo import KupoChainContextExtension
 from pycardano.hash import DatumHash, ScriptHash
+from pycardano.nativescript import NativeScript
 from pycardano.network import Network
 from pycardano.plutus import (
     PLUTUS_V1_COST_MODEL,
@@ -260,12 +261,15 @@ class OgmiosV6ChainContext(ChainContext):
         lovelace_amount = utxo.value.get("ada").get("lovelace", 0)
         script = utxo.script
         if script:
-            # TODO: Need to test with native scripts
             if script["language"].startswith("plutus:v"):
                 script = PlutusScript.from_version(
                     int(script["language"].removeprefix("plutus:v")),
                     bytes.fromhex(script["cbor"]),
                 )
+            elif script["language"] == "native":
+                # Ogmios reports a native script in its own JSON notation ("json")
+                # next to the serialized script ("cbor"); restore it from the latter.
+                script = NativeScript.from_cbor(bytes.fromhex(script["cbor"]))
             else:
                 raise ValueError("Unknown plutus script type")
         datum_hash = (
